@@ -17,6 +17,7 @@ import (
 type Struct struct {
 	useNode bool
 	hooks   uint32 // pass-through hooks installed on the root node (hooks.go)
+	plain   bool   // nodeutil.Node with its default options (IgnoreEmpty off): a zero scalar is a value, so schemas have leaves only as keys
 	s       *schema.Node
 	types   map[*schema.Node]reflect.Type
 	root    reflect.Value // pointer to root struct
@@ -26,6 +27,9 @@ func (st *Struct) Kind() string {
 	k := "rstruct"
 	if st.useNode {
 		k = "nstruct"
+	}
+	if st.plain {
+		k = "nstruct0"
 	}
 	if st.hooks != 0 {
 		k += "+hooks"
@@ -41,6 +45,7 @@ func (st *Struct) Caps() schema.Caps {
 	c.ValueLists = !st.useNode
 	c.ConvSlices = !st.useNode
 	c.Embeds = st.useNode
+	c.NoPlainLeaves = st.plain
 	return c
 }
 
@@ -230,6 +235,9 @@ func (st *Struct) Root() node.Node {
 		n := &nodeutil.Node{
 			Object:  st.root.Interface(),
 			Options: nodeutil.NodeOptions{IgnoreEmpty: true, EnumAsStrings: true},
+		}
+		if st.plain {
+			n.Options = nodeutil.NodeOptions{}
 		}
 		hookNode(n, st.hooks)
 		return n
